@@ -229,3 +229,42 @@ def has_degenerate(r):
   if k in ('inter', 'minter'): return has_degenerate(r['a']) or has_degenerate(r['b'])
   if k == 'list': return any(has_degenerate(x) for x in r['rs'])
   return False
+
+
+# ---------------------------------------------------------------- how the caller passes the arguments
+FORMS = ['list', 'list', 'tuple', 'ndarray', 'ndarray', 'ndarray', 'intarray']
+
+
+def assign_forms(rng, r, groups=None, top=True):
+  """annotate every simple region with `_form` (list / tuple / float ndarray / integer ndarray) and give regions with
+  the SAME normal the same caller-owned object (`_share`) half of the time.  Private keys: the model never sees them."""
+  groups = groups if groups is not None else {}
+  k = r['k']
+  if k in ('inter', 'minter'):
+    assign_forms(rng, r['a'], groups, False); assign_forms(rng, r['b'], groups, False)
+  elif k == 'list':
+    for x in r['rs']:
+      assign_forms(rng, x, groups, False)
+  else:
+    r['_form'] = rng.choice(FORMS)
+    if k in ('half', 'slice'):
+      key = ','.join(r['nrm'])
+      if key in groups:
+        share, form = groups[key]
+        if share:
+          r['_share'] = share; r['_form'] = form
+      else:
+        share = ('n%d' % len(groups)) if rng.random() < 0.5 else None
+        groups[key] = (share, r['_form'])
+        if share:
+          r['_share'] = share
+  return r
+
+
+def gen_hand_slab(rng, p, mode):
+  """a slab written as the intersection of two half-spaces WITH THE SAME NORMAL (the caller naturally reuses one array)."""
+  s = gen_slice(rng, p, mode)
+  lo_first = rng.random() < 0.5
+  a = {'k': 'half', 'nrm': list(s['nrm']), 'o': s['lo'], 'sign': '1'}
+  b = {'k': 'half', 'nrm': list(s['nrm']), 'o': s['hi'], 'sign': '-1'}
+  return {'k': 'inter', 'a': a if lo_first else b, 'b': b if lo_first else a}
